@@ -19,7 +19,7 @@ fn main() {
          values or taken from the runtime's own body pool; non-trivial = node or lane is not a Recon identifier (needs \
          quoting). reader-total: valid envelopes truncated or with one character removed / replaced / inserted, plus a pool \
          of near-envelopes; non-trivial = the reader rejects the text. socket: op lists (attach downlink / one-way client, write request from a client, write response from an \
-         agent, detach, relay <=n bytes either way, poll either task <=k, settle, inject hand-written or invalid frame) over \
+         agent, detach, relay <=n bytes either way, poll either task <=k, settle, inject hand-written (optionally fragmented, with control frames between fragments) or invalid frame; message sizes incl. routed frames of 4 KiB / 8 KiB / 64 KiB +-1) over \
          2-12 (node,lane) pairs incl. pairs differing only in quoting-relevant characters; non-trivial = >=3 distinct sources \
          had a message delivered and some name needed quoting. multi-reader: 1..130 scripted streams (item / gate / \
          self-wake steps) and add / poll / open-gate op lists; non-trivial = >=3 streams with items. Distinct by the Debug \
